@@ -871,6 +871,10 @@ def generate(tier, rng):
     yield base
     tr, rw = _probe(base)
     pts = _crash_points(tr, rw, full, i)
+    if not full and i % 2 == 1:
+      # quick tier, every other configuration: only the crash points that differ in what is on the disk (a crash
+      # before an effect without persistent consequence = a crash before the next file-system effect)
+      pts = [p for p in pts if p[0] >= len(tr) or tr[p[0]][0] in ('cr', 'wr', 'cl', 'rn', 'rm')]
     for p in pts:
       yield {**base, 'crashes': [p]}
     # deeper histories
